@@ -1132,6 +1132,8 @@ impl<'de, R: Read<'de>> Parser<R> {
         loop {
             let digit = match self.peek_or_null()? {
                 c @ b'0'..=b'9' => c - b'0',
+                // In decimal notation, `e` is the exponent marker, not a digit.
+                b'e' | b'E' if radix == 10 => return self.parse_num_tail(radix, pos, res),
                 c @ b'a'..=b'f' => 10 + (c - b'a'),
                 c @ b'A'..=b'F' => 10 + (c - b'A'),
                 _ => return self.parse_num_tail(radix, pos, res),
@@ -1164,6 +1166,10 @@ impl<'de, R: Read<'de>> Parser<R> {
         loop {
             let digit = match self.peek_or_null()? {
                 c @ b'0'..=b'9' => c - b'0',
+                // In decimal notation, `e` is the exponent marker, not a digit.
+                b'e' | b'E' if radix == 10 => {
+                    return self.parse_exponent(pos, significand, exponent);
+                }
                 c @ b'a'..=b'f' if radix >= 10 => 10 + (c - b'a'),
                 c @ b'A'..=b'F' if radix >= 10 => 10 + (c - b'A'),
                 b'.' => {
